@@ -3,6 +3,7 @@
 package main
 
 import (
+	"encoding/json"
 	"flag"
 	"fmt"
 	"os"
@@ -33,6 +34,8 @@ func realMain() (code int) {
 	props := flag.String("props", "", "comma separated property ids, or 'all'")
 	goos := flag.String("goos", "", "GOOS variant to analyse")
 	list := flag.Bool("list", false, "list properties")
+	mutant := flag.String("mutant", "", "mutant JSON (in-memory overlay of /repo sources); implies -dry")
+	dry := flag.Bool("dry", false, "do not write evidence files")
 	flag.Parse()
 	if *list {
 		var ids []string
@@ -82,7 +85,18 @@ func realMain() (code int) {
 		}
 	}
 	t0 := time.Now()
-	prog, err := Load(mode, nil, *goos)
+	var overlay map[string][]byte
+	if *mutant != "" {
+		*dry = true
+		var err error
+		overlay, err = loadMutant(*mutant)
+		if err != nil {
+			fmt.Printf("MUTANT-SKIPPED %s: %v\n", *mutant, err)
+			return 3
+		}
+	}
+	dryRun = *dry
+	prog, err := Load(mode, overlay, *goos)
 	if err != nil {
 		for _, id := range ids {
 			fmt.Printf("cannot analyse the tree: %v\n", err)
@@ -99,6 +113,48 @@ func realMain() (code int) {
 		}
 	}
 	return code
+}
+
+var dryRun bool
+
+type mutantEdit struct {
+	File string `json:"file"`
+	Old  string `json:"old"`
+	New  string `json:"new"`
+}
+
+type mutantSpec struct {
+	Property    string       `json:"property"`
+	Description string       `json:"description"`
+	Expect      string       `json:"expect"`
+	Edits       []mutantEdit `json:"edits"`
+}
+
+func loadMutant(path string) (map[string][]byte, error) {
+	var m mutantSpec
+	b, err := os.ReadFile(path)
+	if err != nil {
+		return nil, err
+	}
+	if err := json.Unmarshal(b, &m); err != nil {
+		return nil, err
+	}
+	ov := map[string][]byte{}
+	for _, e := range m.Edits {
+		fn := repoRoot() + "/" + e.File
+		src, ok := ov[fn]
+		if !ok {
+			src, err = os.ReadFile(fn)
+			if err != nil {
+				return nil, err
+			}
+		}
+		if n := strings.Count(string(src), e.Old); n != 1 {
+			return nil, fmt.Errorf("context changed: old snippet occurs %d times in %s", n, e.File)
+		}
+		ov[fn] = []byte(strings.Replace(string(src), e.Old, e.New, 1))
+	}
+	return ov, nil
 }
 
 func runOne(d *propDef, tier string, prog *Program, tables *Tables) (rc int) {
